@@ -98,6 +98,27 @@ Theorem C12_mean_bounds :
 Proof. exact zsum_bounds. Qed.
 Print Assumptions C12_mean_bounds.
 
+(* the mean does not depend on the order of the events *)
+Theorem C12_mean_order_independent :
+  forall d : list Z, zsum (isort d) = zsum d /\ zlen (isort d) = zlen d.
+Proof. exact (fun d => conj (zsum_isort d) (zlen_isort d)). Qed.
+Print Assumptions C12_mean_order_independent.
+
+(* SD: st_var d = var_num d / (64 n^2) is the mean squared deviation from the
+   mean: n * var_num d = sum (n x - sum d)^2; it is never negative and zero
+   exactly for constant data *)
+Theorem C12_sd_definition :
+  forall d : list Z,
+    zlen d * var_num d
+    = zsum (map (fun x => (zlen d * x - zsum d) * (zlen d * x - zsum d)) d)
+    /\ 0 <= var_num d
+    /\ (var_num d = 0 <-> forall x, In x d -> zlen d * x = zsum d).
+Proof.
+  exact (fun d => conj (var_num_definition d)
+                       (conj (var_num_nonneg d) (var_num_zero_iff d))).
+Qed.
+Print Assumptions C12_sd_definition.
+
 (* mode: the reported bin holds at least as many events as any other bin *)
 Theorem C12_mode_bin_is_fullest :
   forall keys : list Z, keys <> [] ->
@@ -155,33 +176,36 @@ Print Assumptions C12_quantile_level_brackets.
 Theorem C12_kde_scatter_noninterference :
   forall (D : Type) (dnan : D) (logf : fv -> fv) (K : Type)
          (core : K -> list fv -> list fv -> list fv -> list fv -> list D)
+         (is_none : K -> bool) (done : D)
          (fall : list bool) (k : K) (sx sy : scale)
          (xs xs' ys ys' : list fv) (pos : option (list fv * list fv)),
     (forall i : nat, nth i fall false = true ->
                      nth_error xs i = nth_error xs' i) ->
     (forall i : nat, nth i fall false = true ->
                      nth_error ys i = nth_error ys' i) ->
-    kde_scatter D dnan logf K core fall k sx sy xs ys pos =
-    kde_scatter D dnan logf K core fall k sx sy xs' ys' pos.
+    kde_scatter D dnan logf K core is_none done fall k sx sy xs ys pos =
+    kde_scatter D dnan logf K core is_none done fall k sx sy xs' ys' pos.
 Proof. exact kde_scatter_noninterference. Qed.
 Print Assumptions C12_kde_scatter_noninterference.
 
 Theorem C12_kde_scatter_filtered_eq_restricted :
   forall (D : Type) (dnan : D) (logf : fv -> fv) (K : Type)
          (core : K -> list fv -> list fv -> list fv -> list fv -> list D)
+         (is_none : K -> bool) (done : D)
          (fall : list bool) (k : K) (sx sy : scale)
          (xs ys : list fv) (pos : option (list fv * list fv)),
     length xs = length ys ->
     let rx := select fall xs in
     let ry := select fall ys in
-    kde_scatter D dnan logf K core fall k sx sy xs ys pos =
-    kde_scatter D dnan logf K core (all_true rx) k sx sy rx ry pos.
+    kde_scatter D dnan logf K core is_none done fall k sx sy xs ys pos =
+    kde_scatter D dnan logf K core is_none done (all_true rx) k sx sy rx ry pos.
 Proof. exact kde_scatter_filtered_eq_restricted. Qed.
 Print Assumptions C12_kde_scatter_filtered_eq_restricted.
 
 Theorem C12_kde_contour_noninterference :
   forall (D : Type) (dnan : D) (logf expf : fv -> fv) (K : Type)
          (core : K -> list fv -> list fv -> list fv -> list fv -> list D)
+         (is_none : K -> bool) (done : D)
          (A : Type) (spacing : list fv -> A)
          (mesh : option A -> option A -> A -> A -> list fv -> list fv ->
                  option (list fv * list fv))
@@ -191,9 +215,9 @@ Theorem C12_kde_contour_noninterference :
                      nth_error xs i = nth_error xs' i) ->
     (forall i : nat, nth i fall false = true ->
                      nth_error ys i = nth_error ys' i) ->
-    kde_contour D dnan logf expf K core A spacing mesh fall k sx sy xacc yacc
+    kde_contour D dnan logf expf K core is_none done A spacing mesh fall k sx sy xacc yacc
                 xs ys =
-    kde_contour D dnan logf expf K core A spacing mesh fall k sx sy xacc yacc
+    kde_contour D dnan logf expf K core is_none done A spacing mesh fall k sx sy xacc yacc
                 xs' ys'.
 Proof. exact kde_contour_noninterference. Qed.
 Print Assumptions C12_kde_contour_noninterference.
@@ -201,6 +225,7 @@ Print Assumptions C12_kde_contour_noninterference.
 Theorem C12_kde_contour_filtered_eq_restricted :
   forall (D : Type) (dnan : D) (logf expf : fv -> fv) (K : Type)
          (core : K -> list fv -> list fv -> list fv -> list fv -> list D)
+         (is_none : K -> bool) (done : D)
          (A : Type) (spacing : list fv -> A)
          (mesh : option A -> option A -> A -> A -> list fv -> list fv ->
                  option (list fv * list fv))
@@ -209,9 +234,9 @@ Theorem C12_kde_contour_filtered_eq_restricted :
     length xs = length ys ->
     let rx := select fall xs in
     let ry := select fall ys in
-    kde_contour D dnan logf expf K core A spacing mesh fall k sx sy xacc yacc
+    kde_contour D dnan logf expf K core is_none done A spacing mesh fall k sx sy xacc yacc
                 xs ys =
-    kde_contour D dnan logf expf K core A spacing mesh (all_true rx) k sx sy
+    kde_contour D dnan logf expf K core is_none done A spacing mesh (all_true rx) k sx sy
                 xacc yacc rx ry.
 Proof. exact kde_contour_filtered_eq_restricted. Qed.
 Print Assumptions C12_kde_contour_filtered_eq_restricted.
@@ -241,6 +266,26 @@ Proof.
                       (place_bad D dnan good dens))).
 Qed.
 Print Assumptions C12_kde_wrapper_places.
+
+(* kde_type "none" is not wrapped: one constant per event / position, also
+   at nan/inf positions; every other type goes through the wrapper *)
+Theorem C12_kde_none_is_constant :
+  forall (D : Type) (dnan : D) (K : Type)
+         (core : K -> list fv -> list fv -> list fv -> list fv -> list D)
+         (is_none : K -> bool) (done : D)
+         (k : K) (ex ey : list fv) (pos : option (list fv * list fv)),
+    (is_none k = true ->
+     kde_method D dnan K core is_none done k ex ey pos
+     = map (fun _ => done) (match pos with None => ex | Some (px, _) => px end))
+    /\ (is_none k = false ->
+        kde_method D dnan K core is_none done k ex ey pos
+        = wrapped D dnan K core k ex ey pos).
+Proof.
+  exact (fun D dnan K core is_none done k ex ey pos =>
+           conj (kde_method_none D dnan K core is_none done k ex ey pos)
+                (kde_method_wrapped D dnan K core is_none done k ex ey pos)).
+Qed.
+Print Assumptions C12_kde_none_is_constant.
 
 Theorem C12_kde_wrapper_noninterference :
   forall (D : Type) (dnan : D) (K : Type)
@@ -299,7 +344,7 @@ Theorem C12_downsampled_filtered_eq_restricted :
          (dsgrid : list fv -> list fv -> Z -> bool -> list bool)
          (fall : list bool) (sx sy : scale) (n : Z) (rm : bool)
          (xs ys : list fv),
-    length xs = length ys ->
+    length fall = length xs -> length xs = length ys ->
     let rx := select fall xs in
     let ry := select fall ys in
     fst (downsampled logf dsgrid fall sx sy n rm xs ys) =
@@ -315,9 +360,9 @@ Theorem C12_downsampled_mask_identifies_points :
          (fall : list bool) (sx sy : scale) (n : Z) (rm : bool)
          (xs ys : list fv),
     length fall = length xs -> length xs = length ys ->
-    length (dsgrid (apply_scale logf sx (select fall xs))
-                   (apply_scale logf sy (select fall ys)) n rm)
-    = length (select fall xs) ->
+    (forall s, length (dsgrid (apply_scale logf sx (select fall xs))
+                              (apply_scale logf sy (select fall ys)) s rm)
+               = length (select fall xs)) ->
     let r := downsampled logf dsgrid fall sx sy n rm xs ys in
     select (snd r) xs = fst (fst r) /\ select (snd r) ys = snd (fst r) /\
     length (snd r) = length fall.
@@ -355,6 +400,7 @@ Print Assumptions C12_tsv_is_selection.
 Theorem C12_disabled_uses_all :
   forall (D : Type) (dnan : D) (logf expf : fv -> fv) (K : Type)
          (core : K -> list fv -> list fv -> list fv -> list fv -> list D)
+         (is_none : K -> bool) (done : D)
          (A : Type) (spacing : list fv -> A)
          (mesh : option A -> option A -> A -> A -> list fv -> list fv ->
                  option (list fv * list fv))
@@ -365,11 +411,11 @@ Theorem C12_disabled_uses_all :
          (pos : option (list fv * list fv)),
     length xs = length ys ->
     let fall := filter_all false mask xs in
-    kde_scatter D dnan logf K core fall k sx sy xs ys pos =
+    kde_scatter D dnan logf K core is_none done fall k sx sy xs ys pos =
     match xs with
     | [] => []
     | _ :: _ =>
-        wrapped D dnan K core k (apply_scale logf sx xs)
+        kde_method D dnan K core is_none done k (apply_scale logf sx xs)
                 (apply_scale logf sy ys)
                 match pos with
                 | Some (px, py) =>
@@ -377,13 +423,14 @@ Theorem C12_disabled_uses_all :
                 | None => None
                 end
     end /\
-    kde_contour D dnan logf expf K core A spacing mesh fall k sx sy xacc yacc
+    kde_contour D dnan logf expf K core is_none done A spacing mesh fall k sx sy xacc yacc
                 xs ys =
-    kde_contour D dnan logf expf K core A spacing mesh (all_true xs) k sx sy
+    kde_contour D dnan logf expf K core is_none done A spacing mesh (all_true xs) k sx sy
                 xacc yacc xs ys /\
     ds_quantile_level interp fall a b xs ys = quantile_level interp a b xs ys /\
     fst (downsampled logf dsgrid fall sx sy n rm xs ys) =
-    (let idx := dsgrid (apply_scale logf sx xs) (apply_scale logf sy ys) n rm
+    (let idx := dsgrid (apply_scale logf sx xs) (apply_scale logf sy ys)
+                       (Z.min n (zlen xs)) rm
      in (select idx xs, select idx ys)) /\
     tsv_columns true fall [xs; ys] = [xs; ys].
 Proof. exact disabled_uses_all. Qed.
